@@ -255,11 +255,11 @@ Qed.
 Definition trail (j : justify) (free : Q) (n : nat) : Q := free - lead j free n - (nQ n - 1) * between j free n.
 
 (* main-axis placement of one line: first offset, equal spacing, and the right edge *)
-Theorem justify_positions (j : justify) (origin W gap : Q) (line : list jitem) x t : line = x :: t ->
-  let ps := justify_line j origin W gap line in
+Theorem justify_positions (reverse : bool) (j : justify) (origin W gap : Q) (line : list jitem) x t : line = x :: t ->
+  let ps := justify_line reverse j origin W gap line in
   let n := length line in
   exists free j',
-    (snd (margins_line (jfree W gap line) line) = free /\ j' = fallback JStart free j) /\
+    (snd (margins_line (jfree W gap line) line) = free /\ j' = fallback (if reverse then JEnd else JStart) free j) /\
     map pid ps = map jid line /\ map pw ps = map jw line /\
     (exists p ps', ps = p :: ps' /\ px p == origin + lead j' free n) /\
     chain (fun a b => px b == px a + pmw a + gap + between j' free n) ps /\
@@ -270,8 +270,8 @@ Proof.
   intros E ps n. unfold ps, n, justify_line. clear ps n.
   destruct (margins_line (jfree W gap line) line) as (line1, free) eqn:M.
   destruct (margins_line_conserve W gap line line1 free M) as (L1 & L2 & L3 & L4 & L5).
-  exists free, (fallback JStart free j). split; [split; reflexivity|].
-  set (j' := fallback JStart free j).
+  exists free, (fallback (if reverse then JEnd else JStart) free j). split; [split; reflexivity|].
+  set (j' := fallback (if reverse then JEnd else JStart) free j).
   assert (E1 : exists x1 t1, line1 = x1 :: t1 /\ length t1 = length t).
   { destruct line1 as [|x1 t1]; [rewrite E in L1; discriminate|]. exists x1, t1. split; [reflexivity|].
     rewrite E in L1. simpl in L1. lia. }
@@ -326,7 +326,7 @@ Example ex_lines :
 Proof. vm_compute. reflexivity. Qed.
 
 Example ex_justify :
-  map (fun p => (pid p, Qred (px p))) (justify_line JBetween 5 300 10
+  map (fun p => (pid p, Qred (px p))) (justify_line false JBetween 5 300 10
       [mkJ 1 50 0 (Some 0) (Some 0); mkJ 2 50 4 (Some 3) (Some 0); mkJ 3 60 0 (Some 0) (Some 0)])
   = [(1%Z, 5); (2%Z, 243 # 2); (3%Z, 245)].
 Proof. vm_compute. reflexivity. Qed.
